@@ -202,6 +202,12 @@ def parse(
                     structure.LambdaSort(parse(branches[0], structure_cls))
                 )
 
+            elif structure_cls == structure.ListLiteral:
+                # Each item is lowered to a function of its own, so a
+                # break/recurse in it can't refer to an enclosing loop
+                branches = list(map(lambda x: parse(x, structure_cls), branches))
+                structures.append(structure_cls(*branches))
+
             else:
                 branches = list(
                     map(lambda x: parse(x, parent or structure_cls), branches)
